@@ -122,6 +122,90 @@ theorem runChoices_pairing (f : Nat → Option Nat) (n : Nat) (xs : List Item) (
     x.st.out.Perm (xs.filterMap (expect1 f)) :=
   pairing f n xs x.st (runChoices_reach f n cs _ _ h) ht
 
+/-! ## callbacks that panic (fault class: fail loudly, never lose silently) -/
+
+/-- **never silent**: if the callback panics on some input, no run can end normally – every
+    terminal state has `failed = true` (the panic reached the consumer).  This is what
+    `from_coord_iter_parallel` violated before 17fee433 (the `JoinError` was mapped to `None`). -/
+theorem panic_never_silent (f : Nat → Option (Option Nat)) (n : Nat) (xs : List Item) (s : PSt)
+    (hr : PReach f n (PSt.init xs) s) (ht : s.terminal) (hp : ∃ x ∈ xs, f x.2 = none) :
+    s.failed = true := by
+  cases hf : s.failed with
+  | true => rfl
+  | false =>
+    exfalso
+    have h := preach_owed hr hf
+    obtain ⟨h1, h2⟩ := ht
+    obtain ⟨x, hx, hfx⟩ := hp
+    simp only [owedPanics, h1, h2, PSt.init, List.filter_nil, List.length_nil, Nat.add_zero] at h
+    have hm : x ∈ xs.filter (fun x => (f x.2).isNone) := by
+      simp [List.mem_filter, hx, hfx]
+    have : 0 < (xs.filter (fun x => (f x.2).isNone)).length := List.length_pos_of_mem hm
+    omega
+
+/-- a run that ended without failure delivered exactly the demanded pairs -/
+theorem panic_free_pairing (f : Nat → Option (Option Nat)) (n : Nat) (xs : List Item) (s : PSt)
+    (hr : PReach f n (PSt.init xs) s) (ht : s.terminal) :
+    s.out.Perm (xs.filterMap (pexpect1 f)) := by
+  have h := preach_content hr
+  obtain ⟨hp, hi⟩ := ht
+  simpa [pcontent, PSt.init, hp, hi] using h
+
+/-- also a failed (aborted) run has delivered only correct pairs, none twice -/
+theorem panic_prefix_sound (f : Nat → Option (Option Nat)) (n : Nat) (xs : List Item) (s : PSt)
+    (hr : PReach f n (PSt.init xs) s) (p : Nat × Nat) :
+    s.out.count p ≤ (xs.filterMap (pexpect1 f)).count p := by
+  have h := (preach_content hr).count_eq p
+  simp only [pcontent, PSt.init, List.flatMap_nil, List.nil_append, List.count_append] at h
+  omega
+
+/-! ## composition and the sequential combinators -/
+
+theorem filterMap_expect_comp (f g : Nat → Option Nat) (xs : List Item) :
+    (xs.filterMap (expect1 f)).filterMap (expect1 g) = xs.filterMap (expect1 (fun a => (f a).bind g)) := by
+  rw [List.filterMap_filterMap]
+  congr 1
+  funext x
+  obtain ⟨c, a⟩ := x
+  simp only [expect1]
+  cases f a <;> simp [expect1]
+
+/-- **a stream mapped twice** (`.map_blob_parallel(f)` then `.filter_map_blob_parallel(g)`, any two
+    windows, any two schedules): the result is the pairing law of the composed callback -/
+theorem double_map_pairing (f g : Nat → Option Nat) (n m : Nat) (xs : List Item) (s1 s2 : St)
+    (h1 : Reach f n (St.init xs) s1) (t1 : s1.terminal)
+    (h2 : Reach g m (St.init s1.out) s2) (t2 : s2.terminal) :
+    s2.out.Perm (xs.filterMap (expect1 (fun a => (f a).bind g))) := by
+  have p1 := pairing f n xs s1 h1 t1
+  have p2 := pairing g m s1.out s2 h2 t2
+  rw [← filterMap_expect_comp]
+  exact p2.trans (p1.filterMap _)
+
+/-- `map_coord` behind a parallel operator: every result keeps its blob, coordinates are mapped -/
+theorem map_coord_after_parallel (f : Nat → Option Nat) (g : Nat → Nat) (n : Nat) (xs : List Item) (s : St)
+    (hr : Reach f n (St.init xs) s) (ht : s.terminal) :
+    (mapCoord g s.out).Perm (mapCoord g (xs.filterMap (expect1 f))) :=
+  (pairing f n xs s hr ht).map _
+
+/-- `from_coord_vec_async`: exactly the items the callback returns, each from its own coordinate -/
+theorem vec_async_sound (g : Nat → Option (Nat × Nat)) (cs : List Nat) (p : Nat × Nat) :
+    p ∈ seqFilterMap g cs ↔ ∃ c ∈ cs, g c = some p := by
+  simp [seqFilterMap, List.mem_filterMap]
+
+theorem vec_async_length (g : Nat → Option (Nat × Nat)) (cs : List Nat) :
+    (seqFilterMap g cs).length ≤ cs.length := List.length_filterMap_le _ _
+
+/-- `from_stream_iter`: every item of every sub-stream exactly once -/
+theorem flatten_count (xss : List (List (Nat × Nat))) (p : Nat × Nat) :
+    (flattenStreams xss).count p = (xss.map (·.count p)).sum := by
+  simp [flattenStreams, List.count_flatten]
+
+/-- `drain_and_count` behind a parallel operator counts the retained inputs -/
+theorem drain_count_after_parallel (f : Nat → Option Nat) (n : Nat) (xs : List Item) (s : St)
+    (hr : Reach f n (St.init xs) s) (ht : s.terminal) :
+    drainCount s.out = (xs.filterMap (expect1 f)).length :=
+  (pairing f n xs s hr ht).length_eq
+
 /-! ## `for_each_buffered` -/
 
 /-- the chunks concatenate to the stream: every item is seen once, in order -/
